@@ -178,7 +178,8 @@ class GrangerAnalyzer(BaseAnalyzer):
 
     @desc.setattr_on_read
     def frequencies(self):
-        return utils.get_freqs(self.sampling_rate, self._n_freqs)
+        return np.linspace(0, self.sampling_rate / 2,
+                           self._n_freqs // 2 + 1, endpoint=False)
 
     def _dict2arr(self, key):
         """
